@@ -8,16 +8,16 @@ package threading
 // goroutine starts, and the goroutine gives it back when the task ends - also when the task panics (the slot is
 // released inside the recovering clean-up), so a panicking task can never shrink the runner for good.
 //@ func (*TaskRunner).Schedule
-//@   prop C10
+//@   prop C10, C17
 //@   requires r != nil
 //@   ensures [slot-taken-then-goroutine] calls(on("send", r.limitChan)) == 1 && calls("go (*TaskRunner).Schedule$1") == 1 && before("send", "go (*TaskRunner).Schedule$1")
 //@ func (*TaskRunner).Schedule$1
-//@   prop C10
+//@   prop C10, C17
 //@   opaque Recover
 //@   may-panic task
 //@   ensures [task-run-once-under-the-recovering-cleanup] calls(task) == 1 && calls(rescue.Recover) == 1 && before(Recover, task) == false
 //@   ensures [slot-release-is-part-of-the-cleanup] len(arg(rescue.Recover, 0)) == 1 && calls("recv") == 0
 //@   panic-ensures [cleanup-armed-when-the-task-panics] calls(rescue.Recover) == 1 && len(arg(rescue.Recover, 0)) == 1
 //@ func (*TaskRunner).Schedule$1$1
-//@   prop C10
+//@   prop C10, C17
 //@   ensures [gives-the-slot-back] calls(on("recv", r.limitChan)) == 1
